@@ -23,7 +23,7 @@ use super::c02::{make_payload, socks5_udp, start_udp_target};
 use super::endpoints::*;
 use super::nodes::*;
 use super::tcpflows::*;
-use crate::checks::c12::{check_units, UnitSet};
+use crate::units::{check_units, UnitSet};
 use crate::checks::Args;
 use crate::prng::Rng;
 use crate::real::{all_protos, Cfg, Proto};
@@ -433,10 +433,15 @@ async fn replayed_requests(a: Args, idx: usize, proto: Proto, transport: Transpo
     let dir = work_dir(&a, &format!("c12-r{idx}"));
     let d = Deploy::new(cfg.clone(), transport, false, 2, &dir);
     let cfgname = format!("{}|{}|users={}", proto.name(), transport.name(), users);
+    // the server process runs TWO inbounds with the same protocol, credential and users (the configuration file is a list):
+    // a copy of a request answered at one inbound is also presented at the other one
+    let mut d_other = d.clone();
+    d_other.server_port = free_port();
+    let two_inbounds = json!([d.server_entry(), d_other.server_entry()]);
     let (dd, tag) = (d.clone(), format!("c12-r{idx}"));
     let quic = matches!(transport, Transport::Quic);
     let started = tokio::task::spawn_blocking(move || {
-        let mut server = start_node("server", &dd.server_json(), &dd.dir, &tag, dd.workers, &dd.log_level, None, None).map_err(|e| e.to_string())?;
+        let mut server = start_node("server", &two_inbounds, &dd.dir, &tag, dd.workers, &dd.log_level, None, None).map_err(|e| e.to_string())?;
         wait_ready(&mut server, if quic { None } else { Some(dd.server_port) }, if quic { Some(dd.server_port) } else { None }, Duration::from_secs(15))?;
         Ok::<Node, String>(server)
     })
@@ -489,8 +494,13 @@ async fn replayed_requests(a: Args, idx: usize, proto: Proto, transport: Transpo
         let mut answers = vec![present(transport, d.server_port, &wire).await.unwrap_or_default()];
         let (p1, p2, p3) = tokio::join!(present(transport, d.server_port, &wire), present(transport, d.server_port, &wire), present(transport, d.server_port, &wire));
         answers.extend([p1.unwrap_or_default(), p2.unwrap_or_default(), p3.unwrap_or_default()]);
-        rep.evaluations += 4;
-        rep.mon("replay:copies_presented", 4);
+        // ... and at the other inbound of the same process (twice)
+        for _ in 0..2 {
+            answers.push(present(transport, d_other.server_port, &wire).await.unwrap_or_default());
+            rep.mon("replay:copies_presented_at_another_inbound_of_the_process", 1);
+        }
+        rep.evaluations += 6;
+        rep.mon("replay:copies_presented", 6);
         for (k, ans) in answers.iter().enumerate() {
             if ans.is_empty() {
                 rep.mon("replay:copies_left_unanswered", 1);
@@ -515,7 +525,7 @@ async fn replayed_requests(a: Args, idx: usize, proto: Proto, transport: Transpo
     rep.mon("replay:copies_that_reached_the_target_(C10_judges_that)", served_again);
     rep.case(&("wire-replay", idx), set.count > 0);
     if idx == 0 {
-        rep.sample(json!({"config": cfgname, "part": "replayed requests", "rounds": rounds, "copies_per_request": 4, "aead_units": set.count}));
+        rep.sample(json!({"config": cfgname, "part": "replayed requests", "rounds": rounds, "copies_per_request": "4 at the inbound that answered the original, 2 at a second inbound of the same server process", "aead_units": set.count}));
     }
     if !server.alive() {
         rep.violation(format!("C12|wire-replay|{}|server-exited", cfgname), "server exited", json!({"log": server.log_tail(8)}));
